@@ -510,10 +510,7 @@ fn main() {
     let r = timed(&a.text);
     report(&a.text, &format!("call shape: {}", a.what), r)
   });
-  let mut multi: Vec<vcore::illtyped::Ill> = vcore::illtyped::conformance();
-  multi.extend(vcore::illtyped::visibility());
-  multi.extend(vcore::illtyped::scope_escape());
-  multi.extend(vcore::illtyped::bounds());
+  let multi: Vec<vcore::illtyped::Ill> = vcore::illtyped::all_generated();
   space.insert("conformance_and_visibility_programs".into(), json!(multi.len()));
   multi.par_iter().for_each(|g| {
     evaluated.fetch_add(1, Ordering::Relaxed);
